@@ -1,0 +1,40 @@
+//go:build verif
+
+// Copyright JAMF Software, LLC
+
+package cluster
+
+import "github.com/lni/dragonboat/v4"
+
+// VerifNode is a gossip participant without a network: the real shardView behind the real
+// memberlist delegate. Verification hook, compiled only with the verif build tag.
+type VerifNode struct {
+	d     *delegate
+	local []dragonboat.ShardInfo
+}
+
+func NewVerifNode() *VerifNode {
+	n := &VerifNode{}
+	n.d = &delegate{shardView: newView(), infoF: func() Info { return Info{ShardInfoList: n.local} }}
+	return n
+}
+
+// SetLocal sets what the node's own Raft host reports.
+func (n *VerifNode) SetLocal(info []dragonboat.ShardInfo) { n.local = info }
+
+// Notify merges the local Raft information as Cluster.Notify does.
+func (n *VerifNode) Notify() { n.d.shardView.update(toShardViewList(n.d.infoF().ShardInfoList)) }
+
+// UpdateView feeds updates straight into the view.
+func (n *VerifNode) UpdateView(u []dragonboat.ShardView) { n.d.shardView.update(u) }
+
+func (n *VerifNode) LocalState() []byte { return n.d.LocalState(false) }
+
+func (n *VerifNode) MergeRemoteState(b []byte) { n.d.MergeRemoteState(b, false) }
+
+func (n *VerifNode) ShardInfo(id uint64) dragonboat.ShardView { return n.d.shardView.shardInfo(id) }
+
+// VerifMerge exposes the pure merge function.
+func VerifMerge(current, update dragonboat.ShardView) dragonboat.ShardView {
+	return mergeShardInfo(current, update)
+}
